@@ -107,7 +107,7 @@ fn token(rng: &mut Rng, n: usize) -> String {
 pub fn gen_uri(rng: &mut Rng, tag: &str) -> Vec<u8> {
     let tl = 1 + rng.below(6);
     let t = if tag.is_empty() { token(rng, tl) } else { tag.to_string() };
-    let s = match rng.weighted(&[50, 10, 8, 8, 4, 4, 4, 4, 4, 4, 3, 2, 2]) {
+    let s = match rng.weighted(&[50, 10, 8, 8, 4, 4, 4, 4, 4, 4, 3, 2, 2, 4, 2]) {
         0 => format!("/{}", t),
         1 => format!("/{}/{}?q={}", token(rng, 3), t, token(rng, 4)),
         2 => format!("http://localhost/{}", t),
@@ -121,7 +121,10 @@ pub fn gen_uri(rng: &mut Rng, tag: &str) -> Vec<u8> {
         // degenerate forms: scheme only, root only, empty authority
         10 => "http://".to_string(),
         11 => "/".to_string(),
-        _ => format!("http:///{}", t),
+        12 => format!("http:///{}", t),
+        // multi-byte characters in the authority (before the first '/') and no path at all
+        13 => format!("http://caf\u{e9}.\u{4e16}\u{754c}:8080/{}/\u{20ac}", t),
+        _ => format!("http://\u{20ac}{}", t),
     };
     s.into_bytes()
 }
